@@ -5,6 +5,7 @@
 package main
 
 import (
+	"context"
 	"encoding/json"
 	"flag"
 	"fmt"
@@ -13,6 +14,7 @@ import (
 	"sort"
 	"strings"
 	"sync"
+	"time"
 
 	"github.com/rogpeppe/go-internal/par"
 
@@ -487,18 +489,29 @@ func raceCheck() []kit.V {
 	if bin == "" {
 		return nil
 	}
-	cmd := exec.Command(bin, "-racepass")
+	// A Do that never returns would hang the free-running pass: it normally
+	// takes seconds, so three minutes without finishing is reported.
+	ctx, cancel := context.WithTimeout(context.Background(), 3*time.Minute)
+	defer cancel()
+	cmd := exec.CommandContext(ctx, bin, "-racepass")
 	cmd.Env = append(os.Environ(), "GORACE=halt_on_error=1 exitcode=66")
 	out, err := cmd.CombinedOutput()
 	if err == nil {
 		return nil
 	}
 	s := string(out)
+	if ctx.Err() != nil {
+		return []kit.V{{Key: "free-running-hang par.Cache", What: "the free-running pass did not finish within 3 minutes (a call never returned):\n" + firstLines(s, 5), Case: kase{Race: true}, NoConfirm: true}}
+	}
 	if strings.Contains(s, "WARNING: DATA RACE") {
 		return []kit.V{{Key: "data-race par.Cache", What: "race detector report in the free-running pass:\n" + firstLines(s, 30), Case: kase{Race: true}, NoConfirm: true}}
 	}
 	if strings.Contains(s, "RACEPASS-ORACLE") {
 		return []kit.V{{Key: "free-running-oracle par.Cache", What: firstLines(s, 5), Case: kase{Race: true}, NoConfirm: true}}
+	}
+	if strings.Contains(s, "panic: ") || strings.Contains(s, "fatal error: ") {
+		// the code under test crashed in the free-running pass (the explorer reports the same crash with a schedule)
+		return []kit.V{{Key: "free-running-crash par.Cache", What: "the free-running pass crashed:\n" + firstLines(s, 12), Case: kase{}, NoConfirm: true}}
 	}
 	kit.Harness("race pass failed: %v\n%s", err, firstLines(s, 20))
 	return nil
